@@ -198,6 +198,18 @@ def check_rand(recipe) -> list[Fail]:
             compare(ens[i], back[i], "ConformerEnsemble", fails, f"conformer {i}")
             if fails:
                 return fails
+        # the block parser itself, ALL blocks collected before any is looked at (list(read_mol2(f)))
+        from molli.parsing import read_mol2
+        blocks = list(read_mol2(io.StringIO(t1)))
+        if len(blocks) != ens.n_conformers:
+            return [Fail("ConformerEnsemble:parser-block-count", f"{len(blocks)} blocks for {ens.n_conformers} conformers")]
+        for i, b_ in enumerate(blocks):
+            if len(b_.atoms) != ens.n_atoms or len(b_.bonds) != ens.n_bonds:
+                return [Fail("ConformerEnsemble:collected-parser-block-differs:counts", f"block {i}: {len(b_.atoms)} atoms / {len(b_.bonds)} bonds for {ens.n_atoms} / {ens.n_bonds}")]
+            for j, a_ in enumerate(b_.atoms):
+                want = ens.coords[i][j]
+                if any(np.isfinite(w_) and abs(float(g_) - float(w_)) > 6e-5 for g_, w_ in zip(a_.xyz, want)):
+                    return [Fail("ConformerEnsemble:collected-parser-block-differs:coordinates", f"block {i} atom {j}: {a_.xyz} vs {want}")]
         mols = ml.Molecule.loads_all_mol2(t1)
         if len(mols) != ens.n_conformers:
             return [Fail("ConformerEnsemble:loads_all-count", f"{len(mols)} molecules for {ens.n_conformers} conformers")]
